@@ -167,10 +167,53 @@ def distances(idx: ProgramIndex, rep: Report):
 
 
 def fixed_noise(idx: ProgramIndex, rep: Report):
+    """Every write of FixedGaussianNoise.noise - the constructor, and the setters of the likelihoods that own such a noise model - stores a
+    value that went through the clamp to settings.min_fixed_noise: either the clamp discipline holds in the writing function itself, or the
+    stored expression is a call of a helper in which it holds on every returning path."""
     F = idx.find_class("FixedGaussianNoise")
     init = idx.method(F, "__init__", own=True)
-    probs = clamp_discipline(init, "min_fixed_noise", value_names=["self.noise"])
-    rep.add("C07-3", "%s:FixedGaussianNoise.__init__" % F.module.name, init.where, not probs, "self.noise is stored after the clamp to settings.min_fixed_noise (or after the test was false)" if not probs else "; ".join(probs), {})
+    # helpers that return a lower-bounded value on every path
+    bounding = set()
+    for name, m in F.methods.items():
+        if name == "__init__":
+            continue
+        rets = [r for r in ast.walk(m.node) if isinstance(r, ast.Return) and r.value is not None]
+        if rets and not clamp_discipline(m, "min_fixed_noise", value_names=None):
+            bounding.add(name)
+
+    def bounded_expr(e: ast.AST) -> bool:
+        return isinstance(e, ast.Call) and isinstance(e.func, ast.Attribute) and e.func.attr in bounding and (chain(e.func.value) or "") in ("self", "FixedGaussianNoise", "type(self)", "self.__class__", "self.noise_covar")
+    stores = [a for a in ast.walk(init.node) if isinstance(a, ast.Assign) and any(src(t) == "%s.noise" % init.params[0] for t in a.targets)]
+    if stores and all(bounded_expr(a.value) for a in stores):
+        probs = []
+        how = "self.noise = %s(...), which clamps to settings.min_fixed_noise on every returning path" % sorted(bounding)[0]
+    else:
+        probs = clamp_discipline(init, "min_fixed_noise", value_names=["self.noise"])
+        how = "self.noise is stored after the clamp to settings.min_fixed_noise (or after the test was false)"
+    rep.add("C07-3", "%s:FixedGaussianNoise.__init__" % F.module.name, init.where, not probs, how if not probs else "; ".join(probs), {})
+    # other writers: <owner>.noise_covar.initialize(noise=E) in classes whose noise_covar is a FixedGaussianNoise
+    n = 0
+    for cls in sorted(idx.package_classes(), key=lambda c: c.qualname):
+        owns = any(isinstance(c, ast.Call) and (chain(c.func) or "").split(".")[-1] == "FixedGaussianNoise" for m in cls.methods.values() for c in ast.walk(m.node))
+        if not owns:
+            continue
+        for m in sorted([f for f in idx.all_functions() if f.cls is cls], key=lambda f: (f.name, f.node.lineno)):
+            name = m.name + ("[setter]" if any("setter" in src(d) for d in m.node.decorator_list) else "")
+            for c in calls_in(m.node):
+                if not (isinstance(c.func, ast.Attribute) and c.func.attr == "initialize" and (chain(c.func.value) or "").endswith("noise_covar")):
+                    continue
+                kw = {k.arg: k.value for k in c.keywords}
+                if "noise" not in kw:
+                    continue
+                # which noise_covar: the first (fixed) one
+                if "second" in (chain(c.func.value) or ""):
+                    continue
+                n += 1
+                ok = bounded_expr(kw["noise"])
+                rep.add("C07-3", "%s:%s.%s[writes the fixed noise]" % (cls.module.name, cls.qualname, name), "%s:%d" % (m.module.relpath, c.lineno), ok,
+                        "the value goes through FixedGaussianNoise.%s" % sorted(bounding)[0] if ok else
+                        "`%s` stores the value as it is: the lower bound settings.min_fixed_noise is applied by the constructor only, so likelihood.noise = tensor([0., 1e-9, -0.25]) is kept verbatim - the marginal adds less than the bound, or a negative variance" % " ".join(src(c).split())[:70], {})
+    rep.floor("C07-3", "writers of the fixed noise outside the constructor", n, 1)
 
 
 def noise_defaults(idx: ProgramIndex, rep: Report):
